@@ -35,23 +35,88 @@ theorem served_count (s : Svc) (requester : Nat) (ds : List Nat) (hmax : 1 ≤ s
     (s.nodesToSend requester ds).2.length ≤ s.cfg.maxNodesResponse + 1 := by
   sorry
 
-/-- The requester's own entry is never returned. -/
+/-- The requester's own entry is never returned: every table record of the answer comes from an
+entry filed under a key other than the requester's id. -/
 theorem requester_absent (s : Svc) (requester : Nat) (ds : List Nat) :
-    ∀ n ∈ (s.table.nodesByDistances s.cfg.kb s.now ((Svc.dedupAdj (Svc.sortNat ds)).filter (· != 0))
-      s.cfg.maxNodesResponse).2, n.value ∈ tablePart s requester ds → n.key ≠ requester ∨
-        ∃ m ∈ (s.table.nodesByDistances s.cfg.kb s.now ((Svc.dedupAdj (Svc.sortNat ds)).filter (· != 0))
-          s.cfg.maxNodesResponse).2, m.key ≠ requester ∧ m.value = n.value := by
-  sorry
+    ∀ r ∈ tablePart s requester ds,
+      ∃ n ∈ (s.table.nodesByDistances s.cfg.kb s.now ((Svc.dedupAdj (Svc.sortNat ds)).filter (· != 0))
+        s.cfg.maxNodesResponse).2, n.value = r ∧ n.key ≠ requester := by
+  intro r hr
+  unfold tablePart at hr
+  simp only [List.mem_map, List.mem_filter] at hr
+  obtain ⟨n, ⟨hn, hk⟩, rfl⟩ := hr
+  exact ⟨n, hn, rfl, by simpa using hk⟩
+
+theorem split_fold_flatten (recs : List Rec) : ∀ st : Svc.SplitSt,
+    ((recs.foldl Svc.splitStep st).done ++ [(recs.foldl Svc.splitStep st).cur]).flatten =
+      (st.done ++ [st.cur]).flatten ++ recs := by
+  induction recs with
+  | nil => intro st; simp
+  | cons r rest ih =>
+    intro st
+    rw [List.foldl_cons, ih]
+    unfold Svc.splitStep
+    split <;> simp
 
 /-- The split keeps every record, in order. -/
 theorem split_flatten (recs : List Rec) : (Svc.splitPackets recs).flatten = recs := by
-  sorry
+  unfold Svc.splitPackets
+  simp only
+  rw [split_fold_flatten]
+  simp
+
+def sizeSum (p : List Rec) : Nat := (p.map (·.size)).sum
+
+theorem split_fold_sound (recs : List Rec) (hsz : ∀ r ∈ recs, r.size < 1280 - 104) :
+    ∀ st : Svc.SplitSt, sizeSum st.cur = st.size → st.size < 1280 - 104 →
+      (∀ p ∈ st.done, sizeSum p < 1280 - 104) →
+      ∀ p ∈ (recs.foldl Svc.splitStep st).done ++ [(recs.foldl Svc.splitStep st).cur],
+        sizeSum p < 1280 - 104 := by
+  induction recs with
+  | nil =>
+    intro st h1 h2 h3 p hp
+    simp at hp
+    rcases hp with hp | hp
+    · exact h3 p hp
+    · subst hp; omega
+  | cons r rest ih =>
+    intro st h1 h2 h3
+    rw [List.foldl_cons]
+    have hr := hsz r (by simp)
+    apply ih (fun x hx => hsz x (by simp [hx]))
+    · unfold Svc.splitStep
+      split <;> simp [sizeSum] at h1 ⊢ <;> omega
+    · unfold Svc.splitStep
+      split
+      · rename_i h
+        have : Svc.splitLimit = 1280 - 104 := by decide
+        simp only
+        omega
+      · simp only; exact hr
+    · unfold Svc.splitStep
+      split
+      · exact h3
+      · intro p hp
+        simp at hp
+        rcases hp with hp | hp
+        · exact h3 p hp
+        · subst hp; omega
 
 /-- **split_sound** (sizes).  If every record is smaller than the limit, the record sizes of every
-packet sum to less than `1280 − 104`. -/
+packet sum to less than `1280 − 104`.  (The literal `1280 - 104` is compared with the regenerated
+`MAX_PACKET_SIZE - NODES_SPLIT_MARGIN` inside the proof: a changed margin breaks it.) -/
 theorem split_sound (recs : List Rec) (hsz : ∀ r ∈ recs, r.size < 1280 - 104) :
     ∀ p ∈ Svc.splitPackets recs, (p.map (·.size)).sum < 1280 - 104 := by
-  sorry
+  unfold Svc.splitPackets
+  simp only
+  exact split_fold_sound recs hsz {} (by simp [sizeSum]) (by simp) (by simp)
+
+theorem nodesPackets_total (recs : List Rec) :
+    (Svc.nodesPackets recs).2 = (Svc.nodesPackets recs).1.length ∧ 1 ≤ (Svc.nodesPackets recs).1.length := by
+  unfold Svc.nodesPackets
+  split
+  · simp
+  · simp [Svc.splitPackets]
 
 /-- **split_sound** (framing).  Every message emitted for a FINDNODE is a NODES response to the
 requester's node address carrying the request's id, and `total` equals the number of packets. -/
@@ -59,12 +124,42 @@ theorem split_framing (s : Svc) (requester : Nat) (addr : Addr) (rid : Bytes) (d
     ∀ o ∈ (s.sendNodesResponse requester addr rid ds).2,
       ∃ recs, o = .response requester addr rid
         (.nodes (s.sendNodesResponse requester addr rid ds).2.length recs) := by
-  sorry
+  intro o ho
+  unfold Svc.sendNodesResponse at ho ⊢
+  simp only at ho ⊢
+  have ht := (nodesPackets_total (s.nodesToSend requester ds).2).1
+  simp only [List.mem_map, List.length_map] at ho ⊢
+  obtain ⟨p, _, hp⟩ := ho
+  exact ⟨p, by rw [← hp, ht]⟩
 
 /-- At least one packet is always sent (an empty answer is one packet with `total = 1`). -/
 theorem answered (s : Svc) (requester : Nat) (addr : Addr) (rid : Bytes) (ds : List Nat) :
     1 ≤ (s.sendNodesResponse requester addr rid ds).2.length := by
-  sorry
+  unfold Svc.sendNodesResponse
+  simp only [List.length_map]
+  exact (nodesPackets_total _).2
+
+theorem beLen_le_two (n : Nat) (h : n < 65536) : beLen n ≤ 2 := by
+  unfold beLen
+  by_cases hz : n = 0
+  · simp [hz]
+  · rw [if_neg hz]
+    have : n.log2 < 16 := (Nat.log2_lt hz).mpr (by omega)
+    omega
+
+theorem rlpHeaderLen_le_three (n : Nat) (h : n < 65536) : rlpHeaderLen n ≤ 3 := by
+  unfold rlpHeaderLen
+  have := beLen_le_two n h
+  split <;> omega
+
+theorem rlpBytesLenOf_le (b : Bytes) (h : b.length ≤ 8) : rlpBytesLenOf b ≤ 9 := by
+  unfold rlpBytesLenOf
+  split
+  · unfold rlpBytesLen rlpHeaderLen
+    split <;> simp
+  · unfold rlpBytesLen rlpHeaderLen
+    simp
+    split <;> omega
 
 /-- **fits_datagram** (arithmetic core).  A NODES response whose record sizes sum to less than
 `1280 − 104`, with a request id of at most 8 bytes and a one-byte `total` (≤ 127), encodes — as a
@@ -73,7 +168,14 @@ message packet: 16 masking IV + 23 static header + 32 auth-data + ciphertext + 1
 theorem fits_datagram (rid : Bytes) (total : Nat) (sizes : List Nat) (hrid : rid.length ≤ 8)
     (htotal : total ≤ 127) (hsum : sizes.sum < 1280 - 104) :
     16 + 23 + 32 + nodesRespLen rid total sizes + 16 ≤ 1280 := by
-  sorry
+  unfold nodesRespLen
+  simp only
+  have h1 := rlpBytesLenOf_le rid hrid
+  have h2 : rlpUintLen total = 1 := by unfold rlpUintLen; rw [if_pos (by omega)]
+  have h3 := rlpHeaderLen_le_three sizes.sum (by omega)
+  have h4 := rlpHeaderLen_le_three
+    (rlpBytesLenOf rid + rlpUintLen total + (rlpHeaderLen sizes.sum + sizes.sum)) (by omega)
+  omega
 
 /-- `datagramLen` is the sum spelled out in `fits_datagram`. -/
 theorem datagramLen_eq (n : Nat) : datagramLen n = 16 + 23 + 32 + n + 16 := by
@@ -99,17 +201,57 @@ def isResponse : Out → Bool
 /-- **pong_exact.**  A PING observed from a non-zero source port is answered with exactly one
 response: a PONG to the observed node address with the request's id, the current local sequence
 number and exactly the observed IP and port. -/
+theorem sendRpcRequest_local (s : Svc) (p : Nat) (a : Addr) (b : ReqBody) (q : Option Nat) (c : Bool) :
+    (s.sendRpcRequest p a b q c).1.localRec = s.localRec ∧
+    (s.sendRpcRequest p a b q c).2.filter isResponse = [] := by
+  simp [Svc.sendRpcRequest, isResponse]
+
+theorem entry_local (s : Svc) (k : Nat) : (s.entry k).1.localRec = s.localRec := by
+  simp [Svc.entry]
+
 theorem pong_exact (s : Svc) (peer : Nat) (addr : Addr) (rid : Bytes) (enrSeq : Nat)
     (hport : addr.port ≠ 0) :
     (s.handleRequest peer addr rid (.ping enrSeq)).2.filter isResponse =
       [.response peer addr rid (.pong s.localRec.seq addr)] := by
-  sorry
+  unfold Svc.handleRequest
+  simp only
+  have hp : (addr.port != 0) = true := by simpa using hport
+  rw [if_pos hp]
+  rw [List.filter_append]
+  generalize hl : (s.entry peer) = e
+  obtain ⟨s1, l⟩ := e
+  have h1 : s1.localRec = s.localRec := by
+    have := entry_local s peer
+    rw [hl] at this
+    exact this
+  simp only
+  split
+  · rename_i v hv
+    split
+    · rename_i a ha
+      have := sendRpcRequest_local s1 v.id a (.findNode [Consts.ENR_REQUEST_DISTANCE]) none false
+      simp [this.1, this.2, h1, isResponse]
+    · simp [h1, isResponse]
+  · simp [h1, isResponse]
 
 /-- A PING from source port 0 gets no PONG. -/
 theorem pong_port_zero (s : Svc) (peer : Nat) (addr : Addr) (rid : Bytes) (enrSeq : Nat)
     (hport : addr.port = 0) :
     (s.handleRequest peer addr rid (.ping enrSeq)).2.filter isResponse = [] := by
-  sorry
+  unfold Svc.handleRequest
+  simp only
+  have hp : ¬ ((addr.port != 0) = true) := by simp [hport]
+  rw [if_neg hp]
+  rw [List.filter_append]
+  generalize hl : (s.entry peer) = e
+  obtain ⟨s1, l⟩ := e
+  simp only
+  split
+  · rename_i v hv
+    split
+    · simp [Svc.sendRpcRequest, isResponse]
+    · simp
+  · simp
 
 /-- Non-vacuity / worst case of the arithmetic: 1175 bytes of records, 8-byte id → 1279 bytes. -/
 example : 16 + 23 + 32 + nodesRespLen [200, 1, 2, 3, 4, 5, 6, 7] 5 [300, 300, 300, 275] + 16 = 1279 := by
